@@ -90,7 +90,8 @@ def gen_cases(tier: str, seed: int):
         if tier == "thorough" or r.random() < 0.3:
             yield {"part": "D", "expr": e, "ctx": "from"}
     # the same statement text executed again on the same cursor after the result shape changed
-    for scen in ("replace_table", "alter_add", "alter_drop", "use_schema", "qmark_types", "view_replaced", "other_cursor_replaces"):
+    for scen in ("replace_table", "alter_add", "alter_drop", "use_schema", "qmark_types", "view_replaced", "other_cursor_replaces",
+                 "txn_replace_table", "txn_alter_add", "txn_alter_drop", "txn_alter_rename", "txn_view_replaced"):
         for read_between in (True, False):
             yield {"part": "S", "scenario": scen, "read_between": read_between}
     for prev in ("none", "select", "update", "fetched"):
@@ -467,6 +468,8 @@ def _part_s(case: dict, env: core.Env) -> None:
     import snowflake.connector
 
     scen = case["scenario"]
+    in_txn = scen.startswith("txn_")  # the reshaping statement runs inside this connection's open transaction, uncommitted
+    full_scen, scen = scen, scen[4:] if in_txn else scen
     saved = snowflake.connector.paramstyle
     if scen == "qmark_types":
         snowflake.connector.paramstyle = "qmark"
@@ -489,6 +492,10 @@ def _part_s(case: dict, env: core.Env) -> None:
         if case["read_between"]:
             _ = cur.description
         cur.fetchall()
+        if in_txn:
+            other.execute("BEGIN")
+        if scen == "alter_rename":
+            other.execute("ALTER TABLE SHAPE_T RENAME COLUMN B TO B2")
         if scen in ("replace_table", "other_cursor_replaces"):
             c2 = fs.connect("db1", "s1").cursor() if scen == "other_cursor_replaces" else other
             c2.execute("CREATE OR REPLACE TABLE SHAPE_T (A NUMBER(12,4), C DATE, D FLOAT)")
@@ -512,7 +519,19 @@ def _part_s(case: dict, env: core.Env) -> None:
         if not d["ok"]:
             env.witness(f"C06/description-raises/re-executed:{scen}/{d['exc']['cls']}", str(d["exc"])[:300])
             return
+        scen = full_scen
         _check_desc(env, f"re-executed:{scen}", sql, cur.description, o["rows"], False)
+        dc = conn.cursor(core.DictCursor)
+        o2 = core.run_stmt(dc, sql, p2 if p2 else None)
+        if o2["ok"]:
+            _check_desc(env, f"re-executed:{scen}", sql, dc.description, o2["rows"], True)
+        try:
+            dd = [tuple(x) for x in conn.cursor().describe(sql, p2)] if p2 else [tuple(x) for x in conn.cursor().describe(sql)]
+            env.count("cmp_describe")
+            if dd != d["desc"]:
+                env.witness(f"C06/describe-differs-from-description/re-executed:{scen}", f"{sql}: describe {dd} description {d['desc']}")
+        except Exception as e:  # noqa: BLE001
+            env.witness(f"C06/describe-raises/re-executed:{scen}/{type(e).__name__}", str(e)[:200])
         # and it must equal the description a fresh cursor gives for the same statement now
         fresh = conn.cursor()
         fresh.execute(sql, p2) if p2 else fresh.execute(sql)
